@@ -16,7 +16,7 @@ def nsig : Nat := 4
 
 /-- which tracker the oracle predicts: `false` = the code as it is (`lastDataPoints` overwritten),
 `true` = the repaired tracker of `conservation_fixed` (flip when the repair lands in /repo). -/
-def variant : Bool := false
+def variant : Bool := true
 
 def insInt (x : Int) : List Int → List Int
   | [] => [x]
@@ -149,10 +149,10 @@ def check (m : MSt) (cur last : Vec) (failure : Bool) : MSt × List Fail :=
               what := s!"signal {s}: a failed report carried {m.carried s} from an earlier failed report; that usage is in no later report and not pending (growth {m.growth s}, sent {m.sent s}, waiting {cur s + last s})" }
           else
             { prop := "C34", sig := "C34:usage-lost:unexplained",
-              what := s!"signal {s}: growth {m.growth s} but sent {m.sent s} + waiting {cur s + last s} (missing {d}, was {old})" }
+              what := s!"signal {s}: growth {m.growth s}, sent {m.sent s}, waiting {cur s + last s}: unaccounted usage went from {old} to {d}" }
         else
           { prop := "C34", sig := "C34:double-count",
-            what := s!"signal {s}: sent {m.sent s} + waiting {cur s + last s} exceeds growth {m.growth s} by {-d} (was {-old})" }
+            what := s!"signal {s}: growth {m.growth s}, sent {m.sent s}, waiting {cur s + last s}: sent + waiting grew by more than the counter (unaccounted usage went from {old} to {d})" }
       (vset acc.1 s d, acc.2 ++ [f])) (m.disc, [])
   ({ m with disc := r.1 }, r.2)
 
